@@ -49,11 +49,14 @@ func genC13(t *rapid.T) *C13Case {
 	if c.Role == "acceptor" {
 		causes = append(causes, "acceptor-close")
 	} else {
-		causes = append(causes, "initiator-close")
+		causes = append(causes, "initiator-close", "first-write-fails")
 	}
 	c.Cause = rapid.SampledFrom(causes).Draw(t, "cause")
 	// the life of the session up to the injection point
 	stage := rapid.IntRange(0, 4).Draw(t, "stage")
+	if c.Cause == "first-write-fails" {
+		stage = 0 // the very first write of the connection (the initiator's Logon) fails
+	}
 	switch stage {
 	case 0: // before logon: nothing exchanged
 	case 1: // during the handshake: only part of the Logon has arrived (see Partial)
@@ -107,6 +110,7 @@ func hasLogon(prefix []string) bool {
 }
 
 type c13Obs struct {
+	early       string // acceptor: library goroutines of the ended connection still alive before the acceptor itself is closed
 	leftover    string
 	stacks      string
 	served      bool // Initiator.Serve returned / ListenAndServe returned after Close
@@ -156,6 +160,9 @@ func checkC13(c *C13Case, rec *evid.Rec) (vs []pbt.Violation) {
 			conn = ir.C
 			ir.H.OnDisconnect(note("disconnect"))
 			ir.H.OnStopped(note("stopped"))
+			if c.Cause == "first-write-fails" {
+				conn.FailWriteOn(1)
+			}
 			ir.Serve()
 			s, err := rig.InitiatorSession(cfg, ir.H, store, store)
 			if err != nil {
@@ -267,6 +274,8 @@ func checkC13(c *C13Case, rec *evid.Rec) (vs []pbt.Violation) {
 			ar.A.Close()
 		case "initiator-close":
 			ir.I.Close()
+		case "first-write-fails":
+			// injected at set-up: the initiator's own Logon was the write that failed
 		case "bad-inbound":
 			conn.Feed((&rig.InMsg{Type: "D", Seq: next(), Damage: "no-msgtype"}).Bytes())
 		}
@@ -310,6 +319,13 @@ func checkC13(c *C13Case, rec *evid.Rec) (vs []pbt.Violation) {
 		// the application shuts the acceptor down; ListenAndServe must return. The
 		// connection itself must have been closed before that: every cause ends it.
 		if ar != nil {
+			// before that, the ended connection's own goroutines must be gone: only the
+			// acceptor's listening goroutines may still carry library frames
+			for _, line := range strings.Split(rig.Stacks(), "\n") {
+				if line != "" && !strings.Contains(line, "(*Acceptor).ListenAndServe") && !strings.Contains(line, "rig.StartAcceptor") {
+					o.early += line + "\n"
+				}
+			}
 			ar.A.Close()
 			time.Sleep(settle)
 			synctest.Wait()
@@ -344,7 +360,7 @@ func checkC13(c *C13Case, rec *evid.Rec) (vs []pbt.Violation) {
 	if !o.served {
 		vs = append(vs, pbt.V(key("serve-did-not-return"), "%s: the serving call did not return\n%s", desc, o.stacks))
 	}
-	peerCaused := c.Cause == "peer-close" || c.Cause == "peer-reset" || c.Cause == "read-error" || c.Cause == "write-error" || c.Cause == "peer-stall"
+	peerCaused := c.Cause == "peer-close" || c.Cause == "peer-reset" || c.Cause == "read-error" || c.Cause == "write-error" || c.Cause == "peer-stall" || c.Cause == "first-write-fails"
 	if peerCaused && len(o.notified) == 0 {
 		vs = append(vs, pbt.V(key("no-notification"), "%s: neither OnDisconnect nor OnStopped was called on the side that did not initiate the termination", desc))
 	}
@@ -353,6 +369,9 @@ func checkC13(c *C13Case, rec *evid.Rec) (vs []pbt.Violation) {
 	}
 	if o.parkedStuck > 0 {
 		vs = append(vs, pbt.V(key("parked-sender-stuck"), "%s: %d sender(s) that were blocked when the connection ended were never released", desc, o.parkedStuck))
+	}
+	if o.early != "" && len(vs) == 0 && c.Parked == 0 {
+		vs = append(vs, pbt.V(key("connection-goroutines-left:"+leakSites(o.early)), "%s: the connection has ended, the acceptor is still open, and goroutines of that connection remain after the settling time:\n%s", desc, o.early))
 	}
 	if (leak != "" || o.leftover != "") && len(vs) == 0 {
 		vs = append(vs, pbt.V(key("goroutines-left:"+leakSites(o.leftover)), "%s: library goroutines remain after the settling time:\n%s", desc, o.leftover))
